@@ -322,7 +322,7 @@ class Checker:
                 if pth.ret is None or pth.ret == '<none>':
                     continue
                 try:
-                    rt = ast.parse(pth.ret, mode='eval').body
+                    rt = ast.parse(pth.ret_src, mode='eval').body
                 except SyntaxError:
                     continue
                 same_frames = any(pth.facts.get(t) is True for t in eq_texts) or any(pth.facts.get(t) is False for t in ne_texts)
